@@ -222,6 +222,33 @@ for c, n in (('key', 'ssh-rsa'), ('key', 'ssh-dss'), ('kex', 'diffie-hellman-gro
     for i, e in enumerate(ents):
         if e['notes'] != one:
             fail({'category': c, 'name': n, 'occurrence': i}, {'notes': e['notes']}, {'notes of a single occurrence': one}, 'duplicate-json')
+# unknown names occurring more than once (in one list, in two categories, gss names sharing a wildcard): every occurrence is flagged, in text and JSON
+for p_, occ in ((dict(base, enc=['zz-alg', 'aes128-ctr', 'zz-alg']), [('enc', 'zz-alg', 2)]),
+                (dict(base, enc=['aes128-ctr', 'zz-aead'], mac=['zz-aead']), [('enc', 'zz-aead', 1), ('mac', 'zz-aead', 1)]),
+                (dict(base, kex=['gss-foo-sha1-AAAA==', 'curve25519-sha256', 'gss-foo-sha1-BBBB==']), [('kex', 'gss-foo-sha1-AAAA==', 1), ('kex', 'gss-foo-sha1-BBBB==', 1)])):
+    for role in ('server', 'client'):
+        cases += 1
+        tf, doc = render(p_, role)
+        for c, n, k in occ:
+            tn = len([1 for c2, n2, lvl, note in tf if c2 == c and n2 == n and note and 'unknown algorithm' in note])
+            jn = len([1 for e in doc[c] if e['algorithm'] == n and any('unknown algorithm' in x for v in e['notes'].values() for x in v)])
+            if tn != k or jn != k:
+                fail({'peer': {x: p_[x] for x in ('kex', 'enc', 'mac')}, 'role': role, 'category': c, 'name': n}, {'flagged in text': tn, 'flagged in JSON': jn}, {'occurrences': k}, 'unknown-repeated')
+# ratings that come from probing (host-key size): the same for a name whether it is advertised alone or next to its RSA siblings
+sys.path.insert(0, %(native)r)
+import fakenet as F
+def probe_notes(keys, bits):
+    srv = F.Server(['curve25519-sha256'], list(keys), ['aes128-ctr'], ['hmac-sha2-256'], hostkeys={k: F.rsa_blob(bits) for k in keys})
+    st, out = F.run_main(['-n', '--skip-rate-test', 's.test'], F.FakeNet({'s.test': srv}))
+    return H.text_findings(out)
+for bits in (1024, 2048, 4096):
+    for n in ('rsa-sha2-512', 'rsa-sha2-256', 'ssh-rsa'):
+        cases += 1
+        a = full(notes_of(probe_notes([n], bits), 'key', n))
+        for keys in (['rsa-sha2-256', 'rsa-sha2-512', 'ssh-rsa'], ['ssh-rsa', 'rsa-sha2-512', 'rsa-sha2-256']):
+            b = full(notes_of(probe_notes(keys, bits), 'key', n))
+            if a != b:
+                fail({'host key': n, 'bits': bits, 'advertised with': keys}, {'notes': b}, {'notes when advertised alone': a}, 'probe-rating-depends-on-neighbours')
 # unknown names: flagged as unknown in every view, never presented as good
 for c, n in (('kex', 'foo-kex@example.com'), ('key', 'ssh-foo'), ('enc', 'bar-cipher'), ('mac', 'hmac-foo'), ('kex', 'gss-foo-' + GSS)):
     cases += 1
